@@ -452,6 +452,34 @@ def _n8(ctx, fm):
     ctx.floor(R, 9)
 
 
+def _n9(ctx, core, R="C11-N9"):
+    ctx.doc(R, "column coverage: every per-column loop of the kernel (sum key, window minima, block minima, dominance test, window insertion) ranges over all compared columns")
+    loops = []
+    for st in core.stmts():
+        if isinstance(st, ast.For) and isinstance(st.target, ast.Name) and isinstance(st.iter, ast.Call) and call_name(st.iter) == "range":
+            v = st.target.id
+            # a column loop: the loop variable is used as the LAST index of a 2-D subscript or the only index of a per-column vector
+            col = False
+            for x in ast.walk(st):
+                if isinstance(x, ast.Subscript):
+                    sl = x.slice
+                    last = sl.elts[-1] if isinstance(sl, ast.Tuple) and sl.elts else sl
+                    if isinstance(last, ast.Name) and last.id == v and (isinstance(sl, ast.Tuple) or _base_name(x) in ("window_min", "col_min", "col_max")):
+                        col = True
+            if col:
+                loops.append(st)
+    ctx.require(len(loops) >= 8, R, f"column loops found in {core.name}: {len(loops)}")
+    from collections import Counter
+    ext = Counter(" ".join(norm(a) for a in l.iter.args) for l in loops)
+    # group by the extent variable family: loops over the varying columns (dv) and loops over all columns (d)
+    for l in loops:
+        e = " ".join(norm(a) for a in l.iter.args)
+        ok = len(l.iter.args) == 1 and isinstance(l.iter.args[0], ast.Name)
+        ctx.check(ok, R, core, l, f"`for {l.target.id} in range({e})` visits only part of the compared columns ({dict(ext)} elsewhere): a column left out of the sum key lets a dominated row precede its dominator, "
+                  "a column left out of the dominance test or the window makes rows that differ only there dominate each other", f"range({e}): all columns")
+    ctx.floor(R, 8)
+
+
 def check(ctx):
     core = ctx.func(FP, "_sfs_bnl_core", "C11")
     fm = ctx.func(FP, "fast_pareto_mask", "C11")
@@ -463,12 +491,15 @@ def check(ctx):
     _n5(ctx, core)
     _n6(ctx, fm, nm)
     _n8(ctx, fm)
+    _n9(ctx, core)
     decs = " ".join(core.decorators())
     if "fastmath=True" in decs:
         ctx.observe("C11-N7 (not armed): _sfs_bnl_core is compiled with fastmath=True (LLVM ninf/nnan assumptions) although its contract includes +inf; no failing input demonstrated")
 
 
 VARIANTS = [
+    {"kind": "F", "name": "sum-key-skips-last-column", "rule": "C11-N9", "edits": [(FP, "            s = 0.0\n            for kk in range(dv):\n                s += local[i, kk]", "            s = 0.0\n            for kk in range(dv - 1):\n                s += local[i, kk]")]},
+    {"kind": "F", "name": "dominance-test-skips-first-column", "rule": "C11-N9", "edits": [(FP, "                        for kk in range(dv):\n                            wk = window[w, kk]", "                        for kk in range(1, dv):\n                            wk = window[w, kk]")]},
     {"kind": "F", "name": "reintroduce-finite-best_c1", "rule": "C11-N1", "edits": [
         (FP, "                if not have_best or g_min_c1 < best_c1:", "                if g_min_c1 < best_c1:"),
         (FP, "            best_c1 = numba.float64(0.0)\n", "            best_c1 = numba.float64(1e308)\n")]},
